@@ -231,26 +231,29 @@ def dataCmds (ch : Int) : Int → List (List Nat) → List Command
   | _, [] => []
   | addr, c :: cs => .data ch addr c.length (ndigits c.length) c :: dataCmds ch (addr + c.length) cs
 
-/-- `set_data` (lab.py:549-631) -/
+/-- the commands of all channels: `for ch, data_ch_i in zip(CHs, data): …` -/
+def blocksFor (start : Int) (cs : List Int) (perCh : List (List Nat)) : List Command :=
+  (List.zipWith (fun ch bits => dataCmds ch start (chunks MAX_CHUNK_LEN bits)) cs perCh).flatten
+
+/-- `set_data` (lab.py:549-631, after fix e1248f9): the data are converted to a uint8 array first (ragged rows are a
+    `ValueError`), then the number of bits per channel (LAST axis) is compared with `MAX_MEMORY_LEN - start + 1` and
+    every row is truncated with `data[..., :lim]`; 1-D data are tiled over the channels -/
 def setData (data : DataArg) (start : Int) (chs : Chs) : R :=
   let (cs, w1) := checkChannels chs
   let lim : Int := (MAX_MEMORY_LEN : Int) - start + 1
-  let len : Nat := match data with | .flat xs => xs.length | .rows rs => rs.length
-  let w2 : Bool := decide (lim < (len : Int))
-  let perCh : Except Wire.Err (List (List Nat)) :=
-    match data with
-    | .flat xs =>
-      let xs := if w2 then pyTake lim xs else xs
-      .ok (List.replicate cs.length (xs.map bit))
-    | .rows rs =>
-      let rs := if w2 then pyTake lim rs else rs
-      match rs with
-      | [] => .ok []
-      | r :: rest => if rest.all (fun r' => r'.length == r.length) then .ok (rs.map (·.map bit)) else .error .ValueError
-  match perCh with
-  | .error e => .error e
-  | .ok rows =>
-    .ok ⟨(List.zipWith (fun ch bits => dataCmds ch start (chunks MAX_CHUNK_LEN bits)) cs rows).flatten, w1 || w2⟩
+  match data with
+  | .flat xs =>
+    let w2 : Bool := decide (lim < (xs.length : Int))
+    let xs := if w2 then pyTake lim xs else xs
+    .ok ⟨blocksFor start cs (List.replicate cs.length (xs.map bit)), w1 || w2⟩
+  | .rows [] =>                      -- `np.array([])` is the empty 1-D array
+    .ok ⟨blocksFor start cs (List.replicate cs.length []), w1 || decide (lim < 0)⟩
+  | .rows (r :: rest) =>
+    if rest.all (fun r' => r'.length == r.length) then
+      let w2 : Bool := decide (lim < (r.length : Int))
+      let rs := if w2 then (r :: rest).map (pyTake lim) else r :: rest
+      .ok ⟨blocksFor start cs (rs.map (·.map bit)), w1 || w2⟩
+    else .error .ValueError
 
 /-! ## instrument memory, get_data -/
 
